@@ -36,7 +36,8 @@ RULE = ("bind cases: every one of the mixin methods x call shapes (optional argu
         "given explicitly as the default, varargs of 0-2 items), opaque tokens as values; run cases: every mixin method x generated "
         "arguments x generated cold timelines, fluent form vs piped form on separate TestSchedulers; for every parameter the method body tests "
         "(`is None`, `is NotSet`, truthiness; read off the AST independently of shape recognition) every sentinel-like value None/0/''/[]/False "
-        "passed explicitly over an empty and a non-empty source. A bind case is non-trivial "
+        "passed explicitly over an empty and a non-empty source; for every parameter annotated Iterable: list / iter(list) / generator / bounded "
+        "counter arguments with a re-subscription (repeat(2) or a second subscriber). A bind case is non-trivial "
         "when the fluent call binds (no TypeError); a run case is non-trivial when the fluent form delivered at least one notification "
         "or raised at construction. Distinct by canonical JSON of the case.")
 ASSUMPTIONS = [
@@ -280,6 +281,16 @@ def gen_run_cases(rng, tier):
                         explicit.append(p["name"])
             yield {"op": "run", "method": m["name"], "omit": omit, "explicit": explicit, "seed": rng.randrange(1 << 30),
                    "src": gen_msgs(rng), "nstar": rng.choice([0, 1, 2])}
+        # iterable parameters: one-shot iterators / generators / a bounded counter, with a re-subscription (repeat(2), or a second
+        # subscriber after the first finished) - consuming or materialising the argument at the wrong moment shows only then
+        for g in m.get("iterables", []):
+            for kind in ("iter", "gen", "count", "list"):
+                for resub in ("repeat", "two"):
+                    for _ in range(2):
+                        src = [x for x in gen_msgs(rng, allow_error=False, maxlen=3) if x[1][0] == "N"]
+                        src = src + [[(src[-1][0] if src else 0) + 10, ["C"]]]
+                        yield {"op": "run", "method": m["name"], "omit": [], "explicit": [], "seed": rng.randrange(1 << 30),
+                               "src": src, "nstar": 0, "iter": {g: kind}, "resub": resub}
         # parameters the method body tests (`is None`, `is NotSet`, truthiness ...): every sentinel-like value, explicitly passed,
         # over an empty and a non-empty source (that is where a wrong guard becomes observable)
         for g in m.get("guarded", []):
@@ -502,6 +513,18 @@ def build_args(ctx, mrow):
             continue
         if n in case["explicit"]:
             v = _val(p["dflt"]) if p["dflt"] in CONSTS or p["dflt"] == "NotSet" else v
+        if n in case.get("iter", {}):
+            items = v if isinstance(v, list) else [ctx.r.randrange(6) for _ in range(ctx.r.randrange(2, 7))]
+            kind = case["iter"][n]
+            if kind == "iter":
+                v = iter(list(items))
+            elif kind == "gen":
+                v = (x for x in list(items))
+            elif kind == "count":
+                import itertools
+                v = itertools.islice(itertools.count(items[0] if items else 0), len(items) + 3)
+            else:
+                v = list(items)
         if n in case.get("sentinel", {}):
             s = SENTINELS[case["sentinel"][n]]
             v = list(s) if isinstance(s, list) else s
@@ -598,6 +621,12 @@ def run_form(case, form):
         sub(res, "b", 200 + ctx.r.choice([0, 15, 40]))
         t_conn = 200 + ctx.r.choice([0, 10, 30])
         sched.schedule_absolute(t_conn, lambda s, st: disp.add(res.connect(sched)))
+    elif isinstance(res, Observable) and case.get("resub"):
+        if case["resub"] == "repeat":
+            sub(res.pipe(ops.repeat(2)), "a", 200)
+        else:
+            sub(res, "a", 200)
+            sub(res, "b", 600)  # after the first one has finished
     elif isinstance(res, Observable):
         sub(res, "a", 200)
         if case["method"] in ("share", "ref_count") or ctx.r.random() < 0.2:
@@ -712,6 +741,8 @@ def bucket(case, out):
     yield case["op"]
     if case.get("sentinel"):
         yield "run:sentinel-for-guarded-parameter"
+    if case.get("iter"):
+        yield "run:iterator-argument-with-resubscription"
     if case["op"] == "bind":
         yield "bind:" + ("bound" if "op" in out["fluent"] else "typeerror")
         if "op" in out["fluent"] and "typeerror" in out["piped"]:
@@ -756,10 +787,14 @@ def shrink(case):
 
 def search(rng, tier, disagreeing):
     """proof obligation / correspondence broken and the standard cases found nothing: sweep more run cases"""
+    import time as _time
     r2 = random.Random(rng.randrange(1 << 30))
     n = 0
+    t_end = _time.time() + fw.tier_scale(tier, 25, 240)  # the failing-input search has a time budget
     for c in gen_run_cases(r2, "thorough"):
         n += 1
+        if _time.time() > t_end:
+            break
         if n > fw.tier_scale(tier, 3000, 12000):
             break
         v = oracle(c, impl(c))
